@@ -7,7 +7,7 @@ import sys
 import time
 
 HERE = os.path.dirname(os.path.abspath(__file__))
-REPO = "/repo"
+REPO = os.environ.get("SEEDRUN_REPO", "/repo")       # a clean copy may be used for parallel regression runs; recorded runs use /repo
 
 
 def sh(cmd, **kw):
@@ -39,7 +39,7 @@ def main():
         try:
             for p in props:
                 t0 = time.time()
-                r = sh("cd %s && ./check %s --tier %s --no-evidence 2>&1" % (HERE, p, tier))
+                r = sh("cd %s && VERIF_REPO=%s ./check %s --tier %s --no-evidence 2>&1" % (HERE, REPO, p, tier))
                 mons = {}
                 for l in r.stdout.splitlines():
                     if "monitor=" in l:
@@ -48,9 +48,12 @@ def main():
                 verdict = {0: "MISSED", 1: "caught", 2: "inconclusive"}.get(r.returncode, str(r.returncode))
                 res.setdefault(sid, {})["%s/%s" % (p, tier)] = {"verdict": verdict, "monitors": sorted(mons), "wall_s": round(time.time() - t0, 1)}
                 print("%-8s %s/%s: %s %s" % (sid, p, tier, verdict, ",".join(sorted(mons)[:4])), flush=True)
+                if REPO == "/repo":
+                    json.dump(res, open(out, "w"), indent=1, sort_keys=True)
         finally:
             sh("git -C %s checkout -- ." % REPO)
-    json.dump(res, open(out, "w"), indent=1, sort_keys=True)
+    if REPO == "/repo":
+        json.dump(res, open(out, "w"), indent=1, sort_keys=True)
     return 0
 
 
